@@ -7,6 +7,7 @@ ROOT = os.path.dirname(os.path.dirname(os.path.abspath(__file__)))
 
 # property id -> list of harness names (directories under /verif/bounded)
 HARNESSES = {
+    "C14": ["token_roundtrip"],
     "C12": ["hvs"],
     "C13": ["hvs"],
 }
